@@ -233,6 +233,9 @@ def list_over_list(I, st, node, g, src):
 
 
 def to_list(I, st, v, node):
+    if v.ty == "Gen":
+        from . import generators
+        return generators.list_of_gen(I, st, node, v.term)
     if bm._is_placeholder(v):
         return Val(("Ref", "List[Any]"), None, extra=("emptylist",))
     src = _keyed_source(I, st, v)
